@@ -19,7 +19,14 @@ for sid in args:
     assert subprocess.run("git -C /repo status --porcelain", shell=True, capture_output=True, text=True).stdout.strip() == "", "/repo not clean"
     checks = {}
     try:
-        rc, out = sh(f"git apply {d}/patch.diff || git apply -3 {d}/patch.diff", "/repo"); assert rc == 0, out
+        rc, out = sh(f"git apply {d}/patch.diff || git apply -3 {d}/patch.diff", "/repo")
+        if rc != 0:
+            # the seed was written against an earlier commit and a later fix: commit touched the same lines
+            subprocess.run("git -C /repo reset -q --hard HEAD && git -C /repo clean -fdq", shell=True)
+            meta["stale"] = "patch no longer applies to /repo HEAD (conflicts with a later fix: commit); check_results are those taken at its base commit"
+            json.dump(meta, open(f"{d}/meta.json", "w"), indent=1)
+            print(sid, "STALE (does not apply)", flush=True)
+            continue
         for p in props:
             if p != primary and "--all-props" not in sys.argv:
                 checks[p] = meta["check_results"][p]; continue
